@@ -1,6 +1,7 @@
 package rules
 
 import (
+	"go/token"
 	"regexp"
 	"sort"
 	"strconv"
@@ -14,7 +15,10 @@ import (
 func init() { register("C07", c07) }
 
 func isStoreCall(cs engine.CallSite, names ...string) bool {
-	cc := cs.Common()
+	return isStoreCallCC(cs.Common(), names...)
+}
+
+func isStoreCallCC(cc *ssa.CallCommon, names ...string) bool {
 	var recvT, name string
 	if cc.IsInvoke() {
 		if nt := engine.NamedOf(cc.Value.Type()); nt != nil {
@@ -49,6 +53,24 @@ func hasTxInScope(f *ssa.Function) bool {
 		}
 	}
 	return false
+}
+
+// txInScopeAtEveryCall: f has the transaction in scope, or f is a helper every call site of which lies in a
+// function that has (two frames).
+func (c *Ctx) txInScopeAtEveryCall(f *ssa.Function, depth int) bool {
+	if hasTxInScope(f) {
+		return true
+	}
+	callers := c.P.CallersOf(topFn(f))
+	if depth <= 0 || len(callers) == 0 {
+		return false
+	}
+	for _, cs := range callers {
+		if cs.Fn == f || !c.txInScopeAtEveryCall(cs.Fn, depth-1) {
+			return false
+		}
+	}
+	return true
 }
 
 // callsIn: f, its nested closures or the gluon functions they call statically (3 frames)
@@ -130,6 +152,10 @@ func c07(c *Ctx) {
 		if len(creates) == 0 {
 			continue
 		}
+		// a helper every success return of which has written the literal counts as the write
+		for in := range c.mustCallInstrs(f, func(cc *ssa.CallCommon) bool { return isStoreCallCC(cc, "Set", "SetUnchecked") }, 2) {
+			cut[in] = true
+		}
 		n++
 		key := c.name(f) + "|rows-and-literal"
 		bad := ""
@@ -186,7 +212,7 @@ func c07(c *Ctx) {
 			if redownload {
 				continue
 			}
-			R.Check(hasTxInScope(f), "R07.1", c.name(f)+"|store-write-in-tx", P.Pos(cs.Pos()), "literal is written while the creating transaction is still open", "a message literal is written outside the transaction that creates its row: a failure between the two leaves a row without bytes or bytes without a row")
+			R.Check(c.txInScopeAtEveryCall(f, 2), "R07.1", c.name(f)+"|store-write-in-tx", P.Pos(cs.Pos()), "literal is written while the creating transaction is still open", "a message literal is written outside the transaction that creates its row: a failure between the two leaves a row without bytes or bytes without a row")
 		}
 	}
 
@@ -391,10 +417,43 @@ func c07deletedIsMarked(c *Ctx) {
 				skip[engine.Edge{From: b, Succ: ix}] = true
 			}
 		}
+		// error edges: `if err != nil` true edges - returns below them are failure returns
+		errEdges := map[engine.Edge]bool{}
+		for _, b := range g.Blocks {
+			iff := engine.IfOf(b)
+			if iff == nil {
+				continue
+			}
+			if bin, ok := iff.Cond.(*ssa.BinOp); ok && (bin.Op == token.NEQ || bin.Op == token.EQL) && (engine.IsNilConst(bin.X) || engine.IsNilConst(bin.Y)) {
+				other := bin.X
+				if engine.IsNilConst(bin.X) {
+					other = bin.Y
+				}
+				if other.Type().String() == "error" {
+					ix := 0
+					if bin.Op == token.EQL {
+						ix = 1
+					}
+					errEdges[engine.Edge{From: b, Succ: ix}] = true
+				}
+			}
+		}
 		for _, ret := range engine.Returns(g) {
 			lr := engine.LastResult(ret)
-			if lr == nil || !engine.IsNilConst(lr) {
+			if lr == nil {
 				continue
+			}
+			if !engine.IsNilConst(lr) {
+				// a failure return (below an `err != nil` edge), or a forwarded call result that may be nil
+				onErr := false
+				for e := range errEdges {
+					if engine.EdgeDominates(e.From, e.Succ, ret.Block()) {
+						onErr = true
+					}
+				}
+				if onErr {
+					continue
+				}
 			}
 			n++
 			bad := len(cut) == 0 || engine.ReachesAvoiding(g, ret, cut, skip)
